@@ -65,6 +65,26 @@ class Ctx:
             self.broken("floor:" + key, "instance-floor", "-",
                         "%s: matched %d, floor is %d" % (what, got, minimum))
 
+    def anchor(self, fn, *names):
+        """The rules below refer to these locals / parameters of fn (or of its closures) by name.
+        If one is gone (renamed) the rules cannot judge the code: analysis broken, not a violation."""
+        have = set(p["name"] for p in fn.params)
+        fns = [fn] + [g for g in self.prog.fns.values() if g.d.get("parentfn") == fn.usr]
+        for g in list(fns):
+            fns += [h for h in self.prog.fns.values() if h.d.get("parentfn") == g.usr and h not in fns]
+        for g in fns:
+            have |= set(p["name"] for p in g.params)
+            for n in g.nodes:
+                if n["k"] == "decl":
+                    for v in n.get("vars", []):
+                        have.add(v["name"])
+                        have |= {b.split("@")[0] for b in v.get("bindings", [])}
+        missing = [x for x in names if x not in have]
+        if missing:
+            raise AnalysisBroken("anchor name(s) %s not found in %s (renamed?): the rules for this function cannot be evaluated" % (
+                ", ".join(missing), fn.pq))
+        return fn
+
     def use(self, fn):
         self.fns_analysed.add(fn.usr)
         return fn
